@@ -59,6 +59,7 @@ TNext ==
                                  <<"G_C14_OnlyRightCode", e.accepted => e.right>>})
               IN /\ viol' = (IF bad = {} THEN viol ELSE viol \cup {<<l, "OtpPhase", bad>>})
                  /\ UNCHANGED <<ub, bvars, ovars>>
+         [] e.ev = "Sweep" -> UNCHANGED <<ub, viol, bvars, ovars>>     \* the periodic clean-up is no part of the limiter
          [] e.ev = "Wait" -> Wait(e.d) /\ UNCHANGED <<ub, viol, bvars>>
     /\ l' = l + 1
 TSpec == TInit /\ [][TNext]_<<bvars, ovars, l, viol, ub>>
